@@ -41,11 +41,14 @@ Mid(d) == {L1(n) : n \in Base} \cup Doubles(0)
 Stacks(d) == {<<l>> : l \in AllLocs(0)}
              \cup {<<l, m>> : l \in Mid(0), m \in (IF Tier = "thorough" THEN Mid(0) ELSE {L1("u"), L1("a"), L2("u", "a"), L2("a", "u")})}
              \cup {<<L1(x), L1(y), L1(z)>> : x, y, z \in Base}
+             \cup {<<L1("b"), L2(x, y), L1("u")>> : x, y \in Base}      \* an inlined location between a user root and a leaf
              \cup (IF Tier = "thorough" THEN {<<l, L1("u"), m>> : l \in Doubles(0), m \in Doubles(0)} ELSE {})
 \* second sample: shares the first sample's root-most location in a position where the rule applies differently
-Seconds(st) == IF Tier = "thorough" THEN {<<>>, <<st[Len(st)]>>, <<st[Len(st)], L1("u")>>, <<L1("a"), st[Len(st)], L1("u")>>, <<L1("u"), L1("a")>>, <<L1("a")>>, <<L1("u"), L1("b"), L1("a")>>}
+Seconds(st) == IF Tier = "thorough" THEN {<<>>, <<st[Len(st)]>>, <<st[Len(st)], L1("u")>>, <<L1("a"), st[Len(st)], L1("u")>>, <<L1("u"), L1("a")>>, <<L1("a")>>, <<L1("u"), L1("b"), L1("a")>>,
+                                          <<L1("b"), st[Len(st)], L1("u")>>}
                ELSE {<<>>, <<st[Len(st)], L1("u")>>, <<L1("a"), st[Len(st)], L1("u")>>,
-                     <<L1("u"), L1("a")>>, <<L1("a")>>}      \* a later sample whose ROOT matches: the first-user-frame guard is per sample
+                     <<L1("u"), L1("a")>>, <<L1("a")>>,      \* a later sample whose ROOT matches: the first-user-frame guard is per sample
+                     <<L1("b"), st[Len(st)], L1("u")>>}      \* the first sample's root location in the middle, with no name of its own anywhere else
 
 Exprs(d) == { [drop |-> dr, keep |-> kp] : dr \in SUBSET {"a", "b", "ab"}, kp \in (IF Tier = "thorough" THEN {{}, {"a"}, {"b"}} ELSE {{}, {"a"}}) }
 PruneCases(d) == UNION { { [op |-> "prune", samples |-> << Smp(st, <<1, 2>>, <<SLab("k", <<"v">>)>>, <<>>), Smp(sd, <<3, 4>>, <<>>, <<>>) >>,
@@ -167,11 +170,22 @@ Classes(c) ==
        \cup (IF \E i \in DOMAIN c.samples : ~Expressible(c.samples[i], c) THEN {"inexpressible"} ELSE {})
   ELSE (IF \E i \in DOMAIN c.samples : RootSideTrim(c.samples[i], c) THEN {"rootside-trim"} ELSE {})
 
+\* the same per sample: a mismatch of sample i is filed under the classes of sample i (and of the samples it shares a
+\* location with, whose in-place line surgery it sees), so that a sample outside every class is never excused
+SharesLoc(s, t) == \E i \in DOMAIN s.locs : \E j \in DOMAIN t.locs : s.locs[i] = t.locs[j]
+OwnClasses(s, c) ==
+  IF c.op = "prune"
+  THEN (IF GuardedBeneath(s, c) THEN {"guarded-beneath"} ELSE {}) \cup (IF ~Expressible(s, c) THEN {"inexpressible"} ELSE {})
+  ELSE (IF RootSideTrim(s, c) THEN {"rootside-trim"} ELSE {})
+SampleClasses(c) ==
+  [i \in DOMAIN c.samples |->
+     UNION { OwnClasses(c.samples[j], c) : j \in {k \in DOMAIN c.samples : k = i \/ SharesLoc(c.samples[i], c.samples[k])} }]
+
 AbsSeq(ss) == [i \in DOMAIN ss |-> Abs(ss[i])]
 Finish ==
   /\ pc = "done" /\ pc' = "end"
   /\ (Emit => PrintT(ToJson([op |-> case.op, samples |-> case.samples, drop |-> case.drop, keep |-> case.keep,
-                             cls |-> Classes(case), exp |-> AbsSeq(ResultD(case))])))
+                             cls |-> Classes(case), scls |-> SampleClasses(case), exp |-> AbsSeq(ResultD(case))])))
   /\ UNCHANGED <<case, todo, cls, cur, out>>
 Next == LocPass \/ SamplePass \/ Finish
 Spec == Init /\ [][Next]_vars
